@@ -31,7 +31,7 @@ except Exception: pass
 man = dict(version=1,
   setup_cmd='sh -c "command -v cbmc clang++-14 g++ gcc cvc5 python3 c++filt >/dev/null && echo tools-present"',
   hooks=dict(guard='NMTOOLS_VERIF', enable='kernels are compiled with -DNMTOOLS_VERIF by engine/run.py (clang++-14 for the IR, g++ for gate/replay builds)',
-             baseline_off_cmd='sh -c "cmake --build /repo/_build -j16 && ctest --test-dir /repo/_build -j8 --timeout 900"', source_commits=hooks_commits, add_only=True),
+             baseline_off_cmd='python3 /verif/tools/suite_cases.py --build', source_commits=hooks_commits, add_only=True),
   engines=[dict(name='cbmc-ir', path='/verif/engine', serves_properties=[c['property_id'] for c in checks],
                 kind_free_text='clang-14 LLVM IR of the real nmtools templates -> own IR->C translator (engine/ll2c.py) -> CBMC 6.11 (minisat/cadical/kissat/cvc5-int back ends); differential gate and native replay against the g++ build')],
   checks=checks, not_applicable=na,
